@@ -14,7 +14,9 @@ Got(ev) == [res |-> ev.res, pct |-> ev.pct, sur |-> ev.sur]
 OnBoundary(ev, rd) == \E j \in DOMAIN rd.values : rd.values[j].since = ev.date
 Verdict(ev) ==
     LET r == DefOf(ev) IN
-    IF r = 0 THEN "unknown-rate"
+    \* the tables the library holds at the end of the run are those it held at the start
+    IF ev.path = "tables-intact" THEN (IF ev.res = "same" THEN "ok" ELSE "tables-changed:during-the-run")
+    ELSE IF r = 0 THEN "unknown-rate"
     ELSE LET exp == Expected(RateDefs[r], ev.date, ev.tags, ev.ext)
          IN  IF exp = Got(ev) THEN "ok"
              ELSE IF OnBoundary(ev, RateDefs[r]) THEN "on-start-date:" \o exp.res \o "-vs-" \o ev.res
@@ -23,7 +25,7 @@ Step == /\ i <= Len(Trace)
         /\ LET ev == Trace[i]
                v  == Verdict(ev)
            IN  /\ bad' = IF v = "ok" THEN bad ELSE Append(bad, <<i, v>>)
-               /\ boundary' = boundary + (IF DefOf(ev) # 0 /\ OnBoundary(ev, RateDefs[DefOf(ev)]) THEN 1 ELSE 0)
+               /\ boundary' = boundary + (IF ev.path # "tables-intact" /\ DefOf(ev) # 0 /\ OnBoundary(ev, RateDefs[DefOf(ev)]) THEN 1 ELSE 0)
         /\ i' = i + 1
 Spec == Init /\ [][Step]_vars
 Done == i = Len(Trace) + 1
